@@ -90,6 +90,11 @@ func (m *MessageCopyFromGenerator) GenerateFields(g *j.Group) {
 	}
 
 	for _, f := range m.Fields {
+		// The placeholder of a message without fields exists in the schema only: the struct has
+		// nothing to receive it
+		if f.IsPlaceholder {
+			continue
+		}
 		g.Add(NewFieldCopyFromGenerator(f, m.i).Generate())
 	}
 }
